@@ -1,17 +1,24 @@
 """C08 — retargeting an alignment equals rebuilding it, whatever happened before (DESIGN.md section 6, C08).
 
 Parties
-  implementation  the real alignment classes of menpo: constructors, set_target, copy, GeneralizedProcrustesAnalysis
-  oracle          the property text on the real objects: after every history the object is compared with a *freshly
-                  constructed* alignment of the same class / options from copies of the same source to the last
-                  accepted target (map on probe points, h_matrix, target, aligned source); byte digests of every point
-                  set the caller passed in; wrong-shaped targets must raise ValueError; GPA transforms against fresh
-                  AlignmentSimilarity(source_i, gpa.target).  Independent of the Lean model.
-  model           Core/C08Retarget.lean run by the driver with the *reference fits* this harness computes with its own
-                  numpy code (centroid difference, norm ratio, Kabsch, least squares, Procrustes, TPS solve, barycentric
-                  map): the model decides which fit, with which remembered options, on which target is in effect after
-                  the history and how the partial in-place writes assemble the matrix; GPA with symbolic fits and the
-                  convergence flags of an independent re-implementation of the iteration.
+  implementation  the real alignment classes of menpo: constructors, set_target, copy, pseudoinverse, from_vector_inplace /
+                  set_rotation_matrix / compose_*_inplace, GeneralizedProcrustesAnalysis - on PointCloud objects that share
+                  ndarrays, that the caller overwrites in place between calls, of int / float32 dtype, flagged read-only
+  oracle          the property text on the real objects: after every accepted set_target the object is compared with a
+                  *freshly constructed* alignment of the same class / options from a copy of the source to a copy of the
+                  coordinates the given target has at that moment (map on probe points, h_matrix, target, aligned source),
+                  whatever happened before - and every object nothing happened to since is compared again at the end; bytes of
+                  every array the caller owns against what the caller itself put there; wrong-shaped targets must raise
+                  ValueError; GPA transforms against fresh AlignmentSimilarity(source_i, gpa.target).  Independent of the model.
+  model           Core/C08Retarget.lean + Core/C08Heap.lean run by the driver with the *reference fits* this harness computes
+                  with its own numpy code (centroid difference, norm ratio, Kabsch, least squares, Procrustes, TPS solve,
+                  barycentric map): the model decides which fit, with which remembered options, on which coordinates, is in
+                  effect after the history; which PointCloud object every alignment holds (Python identity is compared with
+                  the model's references); how partial in-place writes, re-bindings and exact matrix products assemble the
+                  matrix; what every array of the caller holds; GPA with symbolic fits and the convergence flags of an
+                  independent re-implementation of the iteration (Lean: refGpa, theorem gpa_eq_fresh_iteration).
+  table           Generated/C08RW.lean, rewritten on every run: the instance attributes set_target reads / writes / writes in
+                  place on live objects of every class and option combination; GenProps/C08.lean: they are the model's.
 """
 import json
 
@@ -20,51 +27,76 @@ from .common import fq
 
 PROP = "C08"
 INFO = dict(
-    technique="Lean 4 proof (state machine over set_target histories, generic in the numerical fits: whole-object "
-              "equality with the fresh alignment by induction over the history; heap refinement for in-place writes, "
-              "shared point sets and copies; GPA invariant over the fuel-bounded iteration) + model/implementation "
-              "correspondence with independently computed reference fits + fresh-construction oracle on random histories",
-    level_text="Theorems over an executable model of Targetable.set_target, the seven alignment constructors and every "
-               "_sync_state_from_target (which remembered options each re-fit passes, which part of the homogeneous "
-               "matrix it overwrites in place), HomogFamilyAlignment.copy and GeneralizedProcrustesAnalysis, for "
-               "arbitrary fit functions: after any finite history of accepted and rejected set_target calls the object "
-               "equals the freshly built alignment (same class, options, source) to the last accepted target - state, "
-               "target, aligned source, stored options; wrong-shaped targets are rejected and change nothing; on a heap "
-               "with shared point sets and in-place matrix writes any interleaving of set_target and copy over any number "
-               "of objects computes what independent values compute, never writes a point set, and leaves every object "
-               "the fresh alignment to its own current target; on every exit path GPA's transforms are the fresh "
-               "alignments of each source to the reported target.  The tree as found is characterised universally and "
-               "refuted by kernel-checked witnesses (AlignmentSimilarity forgets rotation=False; AlignmentAffine / "
-               "AlignmentRotation constructors leave the aligned source in .target).  Tied to /repo by running real "
-               "histories (all classes x all option combinations x 1-6 targets x copies x rejected targets, 2-D and 3-D) "
-               "and diffing matrices / maps / targets / verdicts against the Lean driver; the fresh-construction oracle "
-               "decides the property on the real code.",
+    technique="Lean 4 proof (state machine over histories of set_target, parameter edits and in-place writes of the caller, "
+              "generic in the numerical fits: whole-object equality with the fresh alignment by induction over the history; "
+              "frame theorems of the re-fit (reads / writes) tied to the live classes by a regenerated attribute table with "
+              "`decide` obligations; heap refinement for PointCloud objects sharing arrays, in-place matrix writes, "
+              "shallow / deep copies; GPA equal to the iteration with fresh alignments only) + model/implementation "
+              "correspondence with independently computed reference fits and Python object identities + "
+              "fresh-construction oracle on random histories",
+    level_text="Theorems over an executable model of Targetable.set_target, the seven alignment constructors, every "
+               "_sync_state_from_target (which remembered options each re-fit passes, which part of the homogeneous matrix "
+               "it overwrites in place), _sync_target_from_state, from_vector_inplace / set_rotation_matrix / "
+               "compose_*_inplace of the five homogeneous alignments (exact matrix product), HomogFamilyAlignment.copy, "
+               "Copyable.copy of TPS / PWA, GeneralizedProcrustesAnalysis, on a heap of PointCloud objects referring to "
+               "ndarrays the caller may share between objects and overwrite in place, for arbitrary fit functions: (1) after "
+               "any finite history of accepted and rejected set_target calls the object equals the freshly built alignment "
+               "(same class, options, source) to the last accepted target; (2) the same after *anything* - parameter edits, "
+               "the caller moving the held target, copies: one accepted set_target(t) makes the object the fresh alignment "
+               "to the coordinates t has at that moment, also when t is the very object already held; a rejected call "
+               "changes nothing anywhere; (3) the re-fit reads / writes exactly the fields readsOf / writesOf list, and from "
+               "that alone the fitted state after any history is a function of (class, options, source, kept matrix part) "
+               "and the last accepted target; the measured attribute reads / writes of the live classes are those lists "
+               "(regenerated obligation); (4) any interleaving over any number of objects computes what independent values "
+               "compute and never writes an array of coordinates - arrays change only by the caller's own writes; (5) on "
+               "every exit path GPA's transforms are the fresh alignments of each source to the reported target, and its "
+               "target / n_iterations / converged are those of the iteration with fresh alignments only; "
+               "mean_aligned_shape / alignment errors are functions of (sources, reported target).  The tree as found is "
+               "characterised universally and refuted by kernel-checked witnesses.  Tied to /repo by running real "
+               "histories (all classes x all option combinations x set_target / copy / apply / parameter edits / caller "
+               "writes / rejected targets, aliasing PointClouds, int / float32 / read-only arrays, pinv-born objects, 2-D "
+               "and 3-D) and diffing matrices / maps / targets / held-object identities / array contents / verdicts "
+               "against the Lean driver; the fresh-construction oracle decides the property on the real code.",
     level_note="Trusted: Lean kernel; axioms propext/Classical.choice/Quot.sound; Python harness (generators, oracle, "
-               "reference fits); driver parser.  Contract parameters (abstract in the theorems, their values supplied "
-               "by the harness's own numpy code and thereby cross-checked against menpo on every case): centroid, "
-               "Frobenius norm, SVD/Kabsch rotation, least-squares affine, Procrustes composition, TPS system solve "
-               "with singular-value floor, barycentric map, Delaunay triangulation, GPA mean/rescale/convergence test.  "
-               "Float rounding (model exact; 1e-9 relative tolerance).  Python reference semantics of attributes and "
-               "ndarray views are modelled by the heap of Core/C08Retarget.lean, not verified.",
+               "reference fits, attribute read tracing); driver parser.  Contract parameters (abstract in the theorems, their "
+               "values supplied by the harness's own numpy code and thereby cross-checked against menpo on every case): "
+               "centroid, Frobenius norm, SVD/Kabsch rotation, least-squares affine, Procrustes composition, TPS system "
+               "solve with singular-value floor, barycentric map, Delaunay triangulation, GPA mean/rescale/convergence test.  "
+               "Float rounding (model exact; 1e-9 relative tolerance, 1e-5 when a float32 array is involved).  Python "
+               "reference semantics of attributes and ndarrays are modelled by the heap of Core/C08Heap.lean (objects, "
+               "references, whole-array sharing), checked by identity comparisons on every case, not verified.",
     rule="a case = one history on one alignment object family (class, options, dimension): 1-6 set_target calls drawn "
-         "from 3-5 valid targets, wrong-shaped targets and the source itself, copies at random points, calls on copies, "
-         "pure apply calls in between; or one GPA run on 3-8 shapes; distinct = distinct (class, options, points, "
+         "from 3-5 valid targets (float64 / int64 / float32 arrays, some read-only), wrong-shaped targets, the source "
+         "itself and PointClouds sharing an array, copies at random points, calls on copies, pure apply calls, in-place "
+         "writes of the caller into target arrays followed by set_target with the very object held, parameter edits "
+         "(from_vector_inplace / set_rotation_matrix / compose_before_inplace / compose_after_inplace) in between; or one "
+         "GPA run on 3-8 shapes (max_iterations 100 or pinned to 1-3); distinct = distinct (class, options, points, "
          "history); non-trivial = at least two accepted set_target calls or a set_target after a copy (GPA: at least "
          "one re-targeting iteration)",
-    partial=["the numerical fits are abstract functions in the theorems (their optimality is C07); that menpo's fits are "
-             "functions of (options, source, target) only is checked by the oracle, not proved",
-             "GPA's max_iterations exit is proved for the model but cannot be driven through the public API "
-             "(max_iterations is fixed at 100 inside the constructor); it is exercised only when a generated case "
-             "fails to converge",
-             "that no re-fit writes a point set is a transcription fact of the heap model (no model operation has a "
-             "point-set write; theorem retarget_frame states it); on the real code it is decided by the byte-digest oracle",
-             "Copyable.copy of ThinPlateSplines / PiecewiseAffine deep-copies source and target point sets; the heap "
-             "model keeps them shared (never written, so unobservable in the model); decided by the oracle"],
+    partial=["the numerical fits are abstract functions in the theorems (their optimality is C07)",
+             "that no re-fit writes a point set: in the model no operation other than the caller's own write has an "
+             "array write (theorems arrays_change_only_by_caller, retarget_frame state it - a transcription fact); on the "
+             "real code it is decided by the regenerated table (source, previous target and argument of the measured "
+             "set_target calls come out byte-identical), the byte-digest oracle and read-only arrays in the histories",
+             "arrays are shared whole (PointCloud(a, copy=False) on the same ndarray); partially overlapping views are "
+             "not modelled; the caller never overwrites an array some alignment uses as its source (hypothesis LegalAct "
+             "of the heap theorems: ThinPlateSplines builds its kernel and system matrix once from the source)",
+             "in-place compositions: the theorems take the operand's matrix to be class-shaped (identity outside the part "
+             "the class owns) - what composes_inplace_with enforces by type; that every Rotation / Translation / "
+             "UniformScale object has such a matrix is C03's subject.  Products are computed exactly in the model",
+             "pseudoinverse() is a model operation at value level only (theorems base_pinv, pinv_then_set_target; the "
+             "inverse matrix is a contract parameter that must stay class-shaped); pinv-born objects are in the histories "
+             "(oracle, and correspondence from their first set_target on) but the driver does not run pinv, and "
+             "PiecewiseAffine.pseudoinverse (which keeps the old triangle list) is left out",
+             "PiecewiseAffine built on a PointCloud source keeps a TriMesh made from a copy of the caller's points; the "
+             "model keeps the caller's reference (unobservable: sources are never written)"],
     assumptions=["numpy / LAPACK SVD, solve and lstsq are deterministic and accurate to 1e-10 on the conditioned inputs "
                  "the generators produce (singular values of every correlation matrix separated by >= 5% of the largest)"],
-    design_ref="DESIGN.md section 6, C08; section 7 items 6 and 22")
-IMPORTS = ["MenpoModel.Props.C08"]
+    design_ref="DESIGN.md section 6, C08; section 7 items 6 and 22; section 14.2 (seeded C08-1..3)")
+IMPORTS = ["MenpoModel.Props.C08", "MenpoModel.GenProps.C08"]
+TARGETS = ["MenpoModel.Props.C08", "MenpoModel.Drive.C08", "MenpoModel.GenProps.C08"]
 THEOREMS = [
+    # --- histories of set_target on one object (value level), both trees
     "MenpoModel.C08.retarget_eq_rebuild",
     "MenpoModel.C08.retarget_eq_rebuild_sound",
     "MenpoModel.C08.retarget_same_observables",
@@ -81,6 +113,27 @@ THEOREMS = [
     "MenpoModel.C08.coded_ctor_target_rotation",
     "MenpoModel.C08.coded_retarget_ne_rebuild_witness",
     "MenpoModel.C08.coded_fresh_target_witness",
+    # --- objects that are not fresh when set_target is called: stale targets, parameter edits
+    "MenpoModel.C08.setTarget_of_base",
+    "MenpoModel.C08.step_of_base",
+    "MenpoModel.C08.base_vEdit",
+    "MenpoModel.C08.shaped_mul",
+    "MenpoModel.C08.base_vHistory",
+    "MenpoModel.C08.set_target_erases_history",
+    "MenpoModel.C08.rejected_after_history",
+    "MenpoModel.C08.base_pinv",
+    "MenpoModel.C08.pinv_then_set_target",
+    # --- the frame of the re-fit and what follows from it alone
+    "MenpoModel.C08.readsOf_writesOf_overlap",
+    "MenpoModel.C08.build_kinded",
+    "MenpoModel.C08.sync_reads_only",
+    "MenpoModel.C08.sync_writes_only",
+    "MenpoModel.C08.setTarget_determined",
+    "MenpoModel.C08.retarget_state_function",
+    # --- heap: shared point sets, in-place writes, copies, parameter edits, the caller's own writes
+    "MenpoModel.C08.hCopy_spec",
+    "MenpoModel.C08.hEdit_spec",
+    "MenpoModel.C08.hStep_spec",
     "MenpoModel.C08.hRun_refines",
     "MenpoModel.C08.retarget_frame",
     "MenpoModel.C08.copies_evolve_independently",
@@ -88,9 +141,27 @@ THEOREMS = [
     "MenpoModel.C08.vStep_other",
     "MenpoModel.C08.vStep_self",
     "MenpoModel.C08.hBuild_spec",
+    "MenpoModel.C08.hWrite_absObj",
+    "MenpoModel.C08.aRun_inv",
+    "MenpoModel.C08.set_target_after_anything",
+    "MenpoModel.C08.retarget_eq_rebuild_heap",
+    "MenpoModel.C08.rejected_set_target_changes_nothing",
+    "MenpoModel.C08.arrays_change_only_by_caller",
+    # --- GPA
     "MenpoModel.C08.gpa_transforms_are_alignments",
     "MenpoModel.C08.buildAll_getElem",
     "MenpoModel.C08.gpa_fixed_target_reports_it",
+    "MenpoModel.C08.gpa_targets_all_equal",
+    "MenpoModel.C08.gpa_mean_aligned_shape",
+    "MenpoModel.C08.gpa_alignment_errors",
+    "MenpoModel.C08.gpa_iterations",
+    "MenpoModel.C08.gpa_eq_fresh_iteration",
+    # --- obligations over the regenerated read / write table
+    "MenpoModel.GenProps.C08.rwTable_ok",
+    "MenpoModel.GenProps.C08.rwTable_covers",
+    "MenpoModel.GenProps.C08.rwTable_options",
+    "MenpoModel.GenProps.C08.dispatch_ok",
+    "MenpoModel.GenProps.C08.dispatch_covers",
 ]
 TOL = 1e-9
 SV_FLOORS = [1e-4, 0.5, 4.0]
@@ -274,8 +345,112 @@ def gen_target(rng, S, need_rot):
     return None
 
 
+DTYPES = ("float64", "int64", "float32")
+
+
+def _np_dtype(name):
+    import numpy as np
+    return {"float64": np.float64, "int64": np.int64, "float32": np.float32}[name]
+
+
+def simple_case(mcls, icls, d, opts, sets, ops, probes, trilist=None, pinfo=None, **extra):
+    """a history case in which every point set has its own float64 array and its own PointCloud"""
+    case = {"kind": "hist", "mcls": mcls, "icls": icls, "d": d, "opts": opts,
+            "vals": sets, "dtypes": ["float64"] * len(sets), "arrs": list(range(len(sets))),
+            "pcs": list(range(len(sets))), "ro": [], "trilist": trilist, "ops": ops, "probes": probes,
+            "pinfo": pinfo, "birth": None}
+    case.update(extra)
+    return case
+
+
+def edit_params(rng, mcls, d, kind):
+    """parameters of one parameter edit: kind F = the vector given to from_vector_inplace (rotation 2-D: the
+    matrix given to set_rotation_matrix), B / A = the operand of compose_before_inplace / compose_after_inplace,
+    described by the parameters of its own class"""
+    def q(lo, hi, m=2):
+        return dy(rng, lo, hi, m)
+
+    def rot():
+        import numpy as np
+        c, s_ = common.rat_circle(rng, 6)
+        R = np.eye(d)
+        R[:2, :2] = [[float(c), -float(s_)], [float(s_), float(c)]]
+        if d == 3 and rng.random() < 0.5:
+            R = R[[1, 2, 0]][:, [1, 2, 0]]
+        return R
+
+    if mcls == "translation":
+        return [q(-4, 4) for _ in range(d)]
+    if mcls == "uniformScale":
+        return [rng.choice([0.5, 1.5, 2.0, 3.0, 0.25])]
+    if mcls == "rotation":
+        if kind == "F" and d == 3:          # a quaternion (normalised by the code)
+            while True:
+                p = [float(rng.randint(-3, 3)) for _ in range(4)]
+                if any(p):
+                    return p
+        return rot().ravel().tolist()
+    if mcls == "similarity":
+        if kind == "F":                      # 2-D only: [a, b, tx, ty]
+            return [q(-1, 1), q(-1, 1), q(-3, 3), q(-3, 3)]
+        import numpy as np
+        h = np.eye(d + 1)
+        h[:d, :d] = rot() * rng.choice([0.5, 1.0, 2.0])
+        h[:d, d] = [q(-3, 3) for _ in range(d)]
+        return h.ravel().tolist()
+    if mcls == "affine":
+        if kind == "F":
+            return [q(-1, 1) for _ in range(d * (d + 1))]
+        import numpy as np
+        while True:
+            h = np.eye(d + 1)
+            h[:d, :] += np.array([[q(-1, 1) for _ in range(d + 1)] for _ in range(d)])
+            if abs(np.linalg.det(h)) >= 0.25:
+                return h.ravel().tolist()
+    return None
+
+
+def edit_matrix(mcls, d, kind, p):
+    """own code: the (d+1)x(d+1) matrix a parameter vector stands for / the h_matrix of the operand"""
+    import numpy as np
+    p = np.asarray(p, dtype=float)
+    h = np.eye(d + 1)
+    if mcls == "translation":
+        h[:d, d] = p
+    elif mcls == "uniformScale":
+        h[:d, :d] = np.eye(d) * p[0]
+    elif mcls == "rotation":
+        if kind == "F" and d == 3:
+            n = p.dot(p)
+            qq = np.outer(p, p) * (2.0 / n)
+            h[:3, :3] = [[1.0 - qq[2, 2] - qq[3, 3], qq[1, 2] - qq[3, 0], qq[1, 3] + qq[2, 0]],
+                         [qq[1, 2] + qq[3, 0], 1.0 - qq[1, 1] - qq[3, 3], qq[2, 3] - qq[1, 0]],
+                         [qq[1, 3] - qq[2, 0], qq[2, 3] + qq[1, 0], 1.0 - qq[1, 1] - qq[2, 2]]]
+        else:
+            h[:d, :d] = p.reshape(d, d)
+    elif mcls == "similarity":
+        if kind == "F":
+            h = np.array([[1 + p[0], -p[1], p[2]], [p[1], 1 + p[0], p[3]], [0, 0, 1.0]])
+        else:
+            h = p.reshape(d + 1, d + 1)
+    elif mcls == "affine":
+        if kind == "F":
+            h[:d, :] += p.reshape((d, d + 1), order="F")
+        else:
+            h = p.reshape(d + 1, d + 1)
+    return h
+
+
 def gen_case(rng, fam, n_ops=None):
-    """one history case as a JSON-able dict"""
+    """one history case as a JSON-able dict.
+
+    vals    coordinate values (0 = the source); dtypes[v] = the dtype a value is stored with
+    arrs    the caller's ndarrays: the value each holds initially;   ro = arrays flagged read-only
+    pcs     the caller's PointCloud objects: the array each refers to (aliases share one)
+    ops     S i r   objs[i].set_target(pcs[r])           C i   objs.append(objs[i].copy())
+            A i     objs[i].apply(probes)                W r v pcs[r].points[...] = vals[v]   (caller, in place)
+            E i k p parameter edit (k = F: from_vector_inplace / set_rotation_matrix, B / A: compose_*_inplace)
+    """
     import numpy as np
     mcls, icls, d, opts = fam
     tl = None
@@ -291,54 +466,119 @@ def gen_case(rng, fam, n_ops=None):
         if s[0] / s[-1] > 1e6 or any(abs(x - opts["min_singular_val"]) <= 1e-6 * max(1.0, x) for x in s):
             return None
     need_rot = mcls in ("similarity", "rotation")
-    sets = [S]
+    hom = mcls not in ("tps", "pwa")
+    alias_mode = rng.random() < 0.45
+    edit_mode = hom and rng.random() < 0.35
+    vals, dtypes = [S], ["float64"]
+
+    def fresh_value(int_ok=True):
+        T = gen_target(rng, S, need_rot)
+        if T is None or any(np.array_equal(T, X) for X in vals):
+            return None, None
+        r = rng.random()
+        if int_ok and r < 0.15:
+            T1 = np.round(T)
+            if spread(T1, 0.5) and ((not need_rot) or rot_conditioned(S, T1)) and \
+                    not any(np.array_equal(T1, X) for X in vals):
+                return T1, "int64"
+        if int_ok and r < 0.27:
+            return T, "float32"
+        return T, "float64"
+
     n_valid = rng.randint(3, 5)
     for _ in range(n_valid):
-        T = gen_target(rng, S, need_rot)
+        T, dt = fresh_value()
         if T is None:
             return None
-        if any(np.array_equal(T, X) for X in sets):
-            return None
-        sets.append(T)
-    # previous lives of the object under test: (a) its first target was stored with an integer dtype (points on the
-    # pixel grid); (b) it was born as the pseudoinverse() of the reverse alignment instead of from the constructor
-    first_int, birth = False, None
-    if rng.random() < 0.2:
-        T1 = np.round(sets[1])
-        if spread(T1, 0.5) and ((not need_rot) or rot_conditioned(S, T1)) and \
-                not any(np.array_equal(T1, X) for X in [S] + sets[2:]):
-            sets[1], first_int = T1, True
-    elif mcls != "pwa" and rng.random() < 0.25:
+        vals.append(T)
+        dtypes.append(dt)
+    valid_arrs = list(range(1, len(vals)))
+    vals.append(gen_cloud(rng, n + rng.choice([-1, 1, 2]), d))       # wrong number of points
+    vals.append(gen_cloud(rng, n, 5 - d))                            # wrong dimension
+    dtypes += ["float64", "float64"]
+    bad_arrs = [len(vals) - 2, len(vals) - 1]
+    arrs = list(range(len(vals)))
+    pcs = list(range(len(vals)))
+    src_ok = (not need_rot) or rot_conditioned(S, S)
+    valid_pcs = list(valid_arrs) + ([0] if src_ok else [])         # (the source object itself as a target)
+    writable = [k for k in valid_arrs if dtypes[k] == "float64"]
+    wvals = []
+    if alias_mode:
+        for _ in range(rng.randint(1, 2)):                           # values the caller writes later
+            T, dt = fresh_value(int_ok=False)
+            if T is None:
+                return None
+            vals.append(T)
+            dtypes.append("float64")
+            wvals.append(len(vals) - 1)
+        for _ in range(rng.randint(0, 2)):                           # PointClouds sharing another one's array
+            k = rng.choice(valid_arrs)
+            pcs.append(k)
+            valid_pcs.append(len(pcs) - 1)
+        if src_ok and rng.random() < 0.25:                           # a PointCloud on the source's own array
+            pcs.append(0)
+            valid_pcs.append(len(pcs) - 1)
+        if not writable:
+            alias_mode = False
+    # read-only arrays: never among those the caller writes
+    will_write = set(writable) if alias_mode else set()
+    ro = [k for k in range(len(arrs)) if k not in will_write and rng.random() < 0.08]
+    # previous life: born as the pseudoinverse() of the reverse alignment instead of from the constructor
+    birth = None
+    if mcls != "pwa" and rng.random() < 0.2:
         birth = "pinv"      # (a pinv-born PWA keeps the other point set's triangulation: not "the same source")
-    valid = list(range(1, len(sets)))
-    if (not need_rot) or rot_conditioned(S, S):
-        valid.append(0)                                    # the source itself as a target
-    bad = []
-    sets.append(gen_cloud(rng, n + rng.choice([-1, 1, 2]), d))       # wrong number of points
-    bad.append(len(sets) - 1)
-    sets.append(gen_cloud(rng, n, 5 - d))                            # wrong dimension
-    bad.append(len(sets) - 1)
     ops = []
-    n_objs = 1
+    held = [1]               # the PointCloud each object holds as target (None: an object of its own)
     k = n_ops or rng.randint(1, 6)
     done = 0
+    force = None
     while done < k:
         r = rng.random()
-        i = rng.randrange(n_objs)
-        if r < 0.62:
-            ops.append(["S", i, rng.choice(valid)])
+        i = rng.randrange(len(held))
+        if force is not None:
+            ops.append(force)
+            held[force[1]] = force[2]
+            force = None
             done += 1
-        elif r < 0.74:
-            ops.append(["S", i, rng.choice(bad)])
+        elif r < 0.5:
+            t = rng.choice(valid_pcs)
+            ops.append(["S", i, t])
+            held[i] = t
             done += 1
-        elif r < 0.88 and n_objs < 4:
+        elif r < 0.6:
+            ops.append(["S", i, rng.choice(bad_arrs)])
+            done += 1
+        elif r < 0.72 and len(held) < 4:
             ops.append(["C", i])
-            n_objs += 1
+            held.append(held[i] if hom else None)
+        elif r < 0.78:
+            ops.append(["A", i])
+        elif alias_mode and r < 0.92:
+            # the caller overwrites one of its target point sets in place - preferably one an alignment holds -
+            # and then (usually) passes the very same object to set_target again
+            cand = [p for p in range(len(pcs)) if pcs[p] in writable]
+            heldc = [p for p in cand if any(h is not None and pcs[h] == pcs[p] for h in held)]
+            p = rng.choice(heldc) if heldc and rng.random() < 0.75 else rng.choice(cand)
+            v = rng.choice(wvals + [x for x in valid_arrs if dtypes[x] != "float32" or True])
+            ops.append(["W", p, v])
+            holders = [j for j, h in enumerate(held) if h is not None and pcs[h] == pcs[p]]
+            if holders and rng.random() < 0.8:
+                j = rng.choice(holders)
+                force = ["S", j, held[j] if rng.random() < 0.7 else p]
+        elif edit_mode and r < 0.97:
+            kind = rng.choice(["F", "B", "A"])
+            if kind == "F" and mcls == "similarity" and d == 3:
+                kind = "B"                   # 3-D similarities cannot be vectorised
+            ops.append(["E", i, kind, edit_params(rng, mcls, d, kind)])
+            if kind == "F" or mcls == "affine":
+                held[i] = None               # the target is re-synced: a new PointCloud (the aligned source)
+            if rng.random() < 0.6:
+                force = ["S", i, rng.choice(valid_pcs)]
         else:
             ops.append(["A", i])
     if birth == "pinv":
         # the property speaks about the object *after set_target*: a pinv-born object is first retargeted
-        ops.insert(0, ["S", 0, rng.choice([v for v in valid if v != 0] or valid)])
+        ops.insert(0, ["S", 0, rng.choice([v for v in valid_pcs if pcs[v] != 0] or valid_pcs)])
     if mcls == "pwa":
         tri = tl if opts["source"] == "trimesh" else None
         probes, pinfo = pwa_probes(rng, S, tl if tri is not None else delaunay(S))
@@ -346,8 +586,9 @@ def gen_case(rng, fam, n_ops=None):
         probes = np.array([[dy(rng, -8, 8, 3) for _ in range(d)] for _ in range(5)])
         pinfo = None
     return {"kind": "hist", "mcls": mcls, "icls": icls, "d": d, "opts": opts,
-            "sets": [X.tolist() for X in sets], "trilist": tl.tolist() if (tl is not None and opts.get("source") == "trimesh") else None,
-            "ops": ops, "probes": probes.tolist(), "pinfo": pinfo, "first_int": first_int, "birth": birth}
+            "vals": [X.tolist() for X in vals], "dtypes": dtypes, "arrs": arrs, "pcs": pcs, "ro": ro,
+            "trilist": tl.tolist() if (tl is not None and opts.get("source") == "trimesh") else None,
+            "ops": ops, "probes": probes.tolist(), "pinfo": pinfo, "birth": birth}
 
 
 def delaunay(S):
@@ -408,56 +649,126 @@ def arr_close(a, b, scale):
 def case_scale(case):
     import numpy as np
     m = 1.0
-    for X in case["sets"]:
+    for X in case["vals"]:
         m = max(m, float(np.abs(np.array(X)).max()))
+    for op in case["ops"]:
+        if op[0] == "E":
+            m = max(m, float(np.abs(np.array(op[3])).max()))
     return m
+
+
+def upgrade_case(case):
+    """replays recorded before the heap of point sets was modelled: `sets` = one array and one PointCloud each"""
+    if "vals" in case:
+        return case
+    c = dict(case)
+    sets = c.pop("sets")
+    c["vals"] = sets
+    c["dtypes"] = ["float64"] * len(sets)
+    if c.pop("first_int", False):
+        c["dtypes"][1] = "int64"
+    c["arrs"] = list(range(len(sets)))
+    c["pcs"] = list(range(len(sets)))
+    c["ro"] = []
+    return c
+
+
+def do_edit(obj, case, kind, p):
+    """the real parameter edit through the public API"""
+    import numpy as np
+    import menpo.transform as mt
+    mcls, d = case["mcls"], case["d"]
+    p = np.array(p, dtype=float)
+    if kind == "F":
+        if mcls == "rotation" and d == 2:
+            obj.set_rotation_matrix(p.reshape(2, 2))
+        else:
+            obj.from_vector_inplace(p)
+        return
+    if mcls == "translation":
+        t = mt.Translation(p)
+    elif mcls == "uniformScale":
+        t = mt.UniformScale(float(p[0]), d)
+    elif mcls == "rotation":
+        t = mt.Rotation(p.reshape(d, d), skip_checks=True)
+    elif mcls == "similarity":
+        t = mt.Similarity(p.reshape(d + 1, d + 1))
+    else:
+        t = mt.Affine(p.reshape(d + 1, d + 1))
+    if kind == "B":
+        obj.compose_before_inplace(t)
+    else:
+        obj.compose_after_inplace(t)
 
 
 def run_case(ctx, case, lines=None, pending=None, count=True):
     """run one history on the real code, apply the oracle after every call, queue the model query"""
     import numpy as np
     from menpo.shape import PointCloud
+    case = upgrade_case(case)
     icls, mcls, d = case["icls"], case["mcls"], case["d"]
+    hom = mcls not in ("tps", "pwa")
     site = "C08/retarget/" + icls
-    sets_arr = [np.array(X, dtype=float) for X in case["sets"]]
+    vals = [np.array(X, dtype=float) for X in case["vals"]]
     probes = np.array(case["probes"], dtype=float)
     scale = case_scale(case)
     if mcls == "tps":
-        scale = max(scale, float(np.abs(tps_kernel(case["opts"]["kernel"], sets_arr[0], sets_arr[0])).max()))
-    rp = {"case": case, "how": "objs=[Cls(sets[0], sets[1], **opts)]; S i r: objs[i].set_target(sets[r]); "
-                               "C i: objs.append(objs[i].copy()); A i: objs[i].apply(probes); then compare objs[i] with "
-                               "Cls(copy of sets[0], copy of last accepted target, **opts); "
-                               "./check C08 --replay <this file> re-runs it"}
-    pcs = [make_source(case, sets_arr[0].copy())] + [PointCloud(X.copy()) for X in sets_arr[1:]]
-    if case.get("first_int"):
-        pcs[1] = PointCloud(sets_arr[1].astype(np.int64))
-    digest0 = [p.points.tobytes() for p in pcs]
+        scale = max(scale, float(np.abs(tps_kernel(case["opts"]["kernel"], vals[0], vals[0])).max()))
+    rp = {"case": case, "how": "arrays A[k] = vals[arrs[k]].astype(dtypes[arrs[k]]) (read-only if k in ro); PointClouds "
+                               "P[r] = PointCloud(A[pcs[r]], copy=False) (P[0]: the source, a TriMesh if trilist); "
+                               "objs=[Cls(P[0], P[1], **opts)]; S i r: objs[i].set_target(P[r]); C i: objs.append("
+                               "objs[i].copy()); A i: objs[i].apply(probes); W r v: P[r].points[...] = vals[v]; E i k p: "
+                               "from_vector_inplace(p) / set_rotation_matrix (k=F), compose_before_inplace / "
+                               "compose_after_inplace with the operand described by p (k=B/A); after every accepted "
+                               "set_target objs[i] is compared with Cls(copy of the source, copy of P[r] as it is now, "
+                               "**opts); ./check C08 --replay <this file> re-runs it"}
+    # the caller's arrays and PointClouds
+    arrays = []
+    for k, v in enumerate(case["arrs"]):
+        a = np.ascontiguousarray(vals[v].astype(_np_dtype(case["dtypes"][v])))
+        arrays.append(a)
+    cur_val = list(case["arrs"])                  # value id each array holds now
+    pcs = []
+    for r, k in enumerate(case["pcs"]):
+        if r == 0:
+            src = make_source(case, arrays[0])    # (copies: the source array stays private to the source object)
+            arrays[0] = src.points
+            pcs.append(src)
+        else:
+            pcs.append(PointCloud(arrays[k], copy=False))
+    for k in case["ro"]:
+        arrays[k].setflags(write=False)
+    digest0 = [a.tobytes() for a in arrays]
+    expect_bytes = list(digest0)
 
-    def fresh(r):
-        return make_obj(case, make_source(case, sets_arr[0].copy()), PointCloud(sets_arr[r].copy()))
+    def cur_points(r):
+        return arrays[case["pcs"][r]]
 
-    def compare(obj, r, when):
-        """property oracle: obj against the fresh alignment to sets[r]"""
+    def fresh_to(T):
+        return make_obj(case, make_source(case, vals[0].copy()), PointCloud(T.copy()))
+
+    def compare(obj, T, when):
+        """property oracle: obj against the fresh alignment to the coordinates T"""
         ok = True
         try:
-            f = fresh(r)
+            f = fresh_to(T)
             fa, oa = apply_pts(f, probes), apply_pts(obj, probes)
         except Exception as e:
             ctx.fail(site, "raises", "%s: apply / fresh construction raised %s: %s" % (when, type(e).__name__, str(e)[:100]), rp)
             return False
         if not arr_close(oa, fa, scale):
-            ctx.fail(site, "map-differs", "%s: map differs from the fresh alignment to set %d: max deviation %.3g on "
-                     "the probe points" % (when, r, float(np.abs(oa - fa).max())), rp)
+            ctx.fail(site, "map-differs", "%s: map differs from the fresh alignment to the same target: max deviation "
+                     "%.3g on the probe points" % (when, float(np.abs(oa - fa).max())), rp)
             ok = False
         if hasattr(obj, "h_matrix") and not arr_close(obj.h_matrix, f.h_matrix, scale):
-            ctx.fail(site, "map-differs", "%s: h_matrix differs from the fresh alignment to set %d" % (when, r), rp)
+            ctx.fail(site, "map-differs", "%s: h_matrix differs from the fresh alignment to the same target" % when, rp)
             ok = False
         if not (np.array_equal(obj.target.points, f.target.points)):
             ctx.fail(site, "target-differs", "%s: .target differs from the fresh alignment's .target (retargeted "
                      "object holds the given target: %s; fresh object holds the given target: %s)" % (
-                         when, np.array_equal(obj.target.points, sets_arr[r]), np.array_equal(f.target.points, sets_arr[r])), rp)
+                         when, np.array_equal(obj.target.points, T), np.array_equal(f.target.points, T)), rp)
             ok = False
-        elif not np.array_equal(obj.target.points, sets_arr[r]):
+        elif not np.array_equal(obj.target.points, T):
             ctx.fail(site, "target-differs", "%s: .target is not the target that was set" % when, rp)
             ok = False
         try:
@@ -467,23 +778,25 @@ def run_case(ctx, case, lines=None, pending=None, count=True):
         except Exception as e:
             ctx.fail(site, "raises", "%s: aligned_source raised %s" % (when, type(e).__name__), rp)
             ok = False
-        if not np.array_equal(obj.source.points, sets_arr[0]):
+        if not np.array_equal(obj.source.points, vals[0]):
             ctx.fail(site, "source-altered", "%s: the source of the alignment changed" % when, rp)
             ok = False
-        if obj.n_points != sets_arr[0].shape[0] or obj.n_dims != d:
+        if obj.n_points != vals[0].shape[0] or obj.n_dims != d:
             ctx.fail(site, "shape", "%s: n_points / n_dims wrong" % when, rp)
             ok = False
         return ok
 
-    ctx.count("birth:%s%s" % (case.get("birth") or "constructor", "/int-first-target" if case.get("first_int") else ""))
+    ctx.count("birth:%s" % (case.get("birth") or "constructor"))
+    rev_probe = None
     try:
         objs = None
         if case.get("birth") == "pinv":
             try:
-                rev = make_obj(case, make_source(case, sets_arr[1].copy()), PointCloud(sets_arr[0].copy()))
+                rev = make_obj(case, pcs[1], pcs[0])
                 born = rev.pseudoinverse()
-                if np.array_equal(born.source.points, sets_arr[0]) and np.array_equal(born.target.points, sets_arr[1]):
+                if born.source is pcs[0] and born.target is pcs[1]:
                     objs = [born]
+                    rev_probe = (rev, apply_pts(rev, vals[1]).copy())
             except Exception:      # a singular reverse alignment has no inverse: use the constructor
                 objs = None
         if objs is None:
@@ -491,17 +804,27 @@ def run_case(ctx, case, lines=None, pending=None, count=True):
     except Exception as e:
         ctx.fail(site, "raises", "constructor raised %s: %s" % (type(e).__name__, str(e)[:100]), rp)
         return
-    cur = [1]                 # last accepted target of every object
+    # what every object is expected to be: `tgt` = the coordinates of its last accepted target as they were then,
+    # `clean` = nothing happened since that makes the fit stale (a parameter edit; the caller moving the held target)
+    tgt = [cur_points(1).copy()]
+    held = [1]                # PointCloud index the object holds (None: an object of its own)
+    clean = [not (case.get("birth") == "pinv")]
     verdicts = []
     accepted = 0
     after_copy = False
     ok_all = True
-    if objs[0] is not None and not (case.get("birth") == "pinv" and case["ops"] and case["ops"][0][0] == "S"):
-        ok_all = compare(objs[0], 1, "after construction")
+    resubmitted = 0
+    if clean[0]:
+        ok_all = compare(objs[0], tgt[0], "after construction")
     for k, op in enumerate(case["ops"]):
         if op[0] == "S":
             i, r = op[1], op[2]
-            good = sets_arr[r].shape == sets_arr[0].shape
+            T = cur_points(r)
+            good = T.shape == vals[0].shape
+            same_obj = objs[i].target is pcs[r]
+            dig = None
+            if not good:
+                dig = (common.deep_digest(vars(objs[i])), {kk: id(vv) for kk, vv in vars(objs[i]).items()})
             try:
                 objs[i].set_target(pcs[r])
                 raised = None
@@ -515,25 +838,45 @@ def run_case(ctx, case, lines=None, pending=None, count=True):
                     ctx.fail(site, "raises", "op %d: set_target with a well-shaped target raised %s" % (k, raised), rp)
                     ok_all = False
                     continue
-                cur[i] = r
+                tgt[i], held[i], clean[i] = T.copy(), r, True
                 accepted += 1
+                if rev_probe is not None and k == 0:
+                    # the alignment this one was inverted from is another object: retargeting the inverse leaves it alone
+                    try:
+                        same = arr_close(apply_pts(rev_probe[0], vals[1]), rev_probe[1], scale)
+                    except Exception:
+                        same = False
+                    if not same:
+                        ctx.fail(site, "other-object-altered", "op 0: set_target on the pseudoinverse() changed the map of "
+                                 "the alignment it was inverted from", rp)
+                        ok_all = False
                 after_copy = after_copy or len(objs) > 1
+                if same_obj:
+                    resubmitted += 1
+                ok_all = compare(objs[i], tgt[i], "op %d (%s)" % (k, " ".join(map(str, op)))) and ok_all
             else:
                 verdicts.append("err" if raised is not None else "a")
                 if raised is None:
                     ctx.fail(site, "mismatch-accepted", "op %d: set_target accepted a target of shape %r on an alignment "
-                             "of shape %r" % (k, sets_arr[r].shape, sets_arr[0].shape), rp)
+                             "of shape %r" % (k, T.shape, vals[0].shape), rp)
                     ok_all = False
-                    cur[i] = r
+                    clean[i] = False
                     continue
                 if raised != "ValueError":
                     ctx.fail(site, "mismatch-wrong-exception", "op %d: wrong-shaped target raised %s, not ValueError" % (k, raised), rp)
                     ok_all = False
-            ok_all = compare(objs[i], cur[i], "op %d (%s)" % (k, " ".join(map(str, op)))) and ok_all
+                dig2 = (common.deep_digest(vars(objs[i])), {kk: id(vv) for kk, vv in vars(objs[i]).items()})
+                if dig2 != dig:
+                    ctx.mismatch("hist/rejected-digest", "op %d: the rejected set_target changed the object's attributes "
+                                 "(%s)" % (k, sorted(kk for kk in dig[1] if dig[1].get(kk) != dig2[1].get(kk)) or "values"), rp)
+                if clean[i]:
+                    ok_all = compare(objs[i], tgt[i], "op %d (%s, rejected)" % (k, " ".join(map(str, op)))) and ok_all
         elif op[0] == "C":
             try:
                 objs.append(objs[op[1]].copy())
-                cur.append(cur[op[1]])
+                tgt.append(tgt[op[1]])
+                held.append(held[op[1]] if hom else None)
+                clean.append(clean[op[1]])
             except Exception as e:
                 ctx.fail(site, "raises", "op %d: copy raised %s" % (k, type(e).__name__), rp)
                 return
@@ -543,13 +886,37 @@ def run_case(ctx, case, lines=None, pending=None, count=True):
             except Exception as e:
                 ctx.fail(site, "raises", "op %d: apply raised %s" % (k, type(e).__name__), rp)
                 ok_all = False
+        elif op[0] == "W":
+            r, v = op[1], op[2]
+            a = case["pcs"][r]
+            pcs[r].points[...] = vals[v]          # the caller's own in-place write
+            cur_val[a] = v
+            expect_bytes[a] = arrays[a].tobytes()
+            for j in range(len(objs)):
+                if held[j] is not None and case["pcs"][held[j]] == a:
+                    clean[j] = False              # stale until the next set_target - by the caller's doing
+        elif op[0] == "E":
+            i = op[1]
+            try:
+                do_edit(objs[i], case, op[2], op[3])
+            except Exception as e:
+                ctx.count("edit-raised:%s" % type(e).__name__)
+                ok_all = False
+                break
+            clean[i] = False
+            if op[2] == "F" or mcls == "affine":
+                held[i] = None
     # every object, original or copy, at the end (copies must not have been dragged along)
     for i, obj in enumerate(objs):
-        if sets_arr[cur[i]].shape == sets_arr[0].shape:
-            ok_all = compare(obj, cur[i], "at the end, object %d" % i) and ok_all
-    for j, p in enumerate(pcs):
-        if p.points.tobytes() != digest0[j]:
-            ctx.fail(site, "caller-pointset-altered", "point set %d passed by the caller was modified" % j, rp)
+        if clean[i]:
+            ok_all = compare(obj, tgt[i], "at the end, object %d" % i) and ok_all
+    for j, a in enumerate(arrays):
+        if a.tobytes() != expect_bytes[j]:
+            ctx.fail(site, "caller-pointset-altered", "array %d passed by the caller was modified (not by the caller)" % j, rp)
+            ok_all = False
+    for r, p in enumerate(pcs):
+        if p.points is not arrays[case["pcs"][r]]:
+            ctx.fail(site, "caller-pointset-altered", "PointCloud %d of the caller no longer refers to its array" % r, rp)
             ok_all = False
     if count:
         ctx.count("class:" + icls)
@@ -558,36 +925,44 @@ def run_case(ctx, case, lines=None, pending=None, count=True):
             ctx.count("opt:%s=%s" % (key, v))
         ctx.count("ops:set_target", sum(1 for o in case["ops"] if o[0] == "S"))
         ctx.count("ops:copy", sum(1 for o in case["ops"] if o[0] == "C"))
-        ctx.count("ops:rejected", sum(1 for v, o in zip(verdicts, [o for o in case["ops"] if o[0] == "S"])
-                                     if v == "err"))
-        ctx.case(("hist", icls, json.dumps(case["opts"], sort_keys=True), case["sets"][0], case["ops"]),
+        ctx.count("ops:caller-write", sum(1 for o in case["ops"] if o[0] == "W"))
+        ctx.count("ops:param-edit", sum(1 for o in case["ops"] if o[0] == "E"))
+        ctx.count("ops:set_target-with-held-object", resubmitted)
+        ctx.count("ops:rejected", sum(1 for v in verdicts if v == "err"))
+        for v in set(case["dtypes"][x] for x in case["arrs"]):
+            ctx.count("target-dtype:" + v)
+        if case["ro"]:
+            ctx.count("read-only-arrays")
+        if len(set(case["pcs"])) < len(case["pcs"]):
+            ctx.count("aliasing-pointclouds")
+        ctx.case(("hist", icls, json.dumps(case["opts"], sort_keys=True), case["vals"][0], case["ops"]),
                  nontrivial=accepted >= 2 or after_copy,
-                 sample={"class": icls, "opts": case["opts"], "d": d, "n": len(case["sets"][0]), "ops": case["ops"]})
+                 sample={"class": icls, "opts": case["opts"], "d": d, "n": len(case["vals"][0]), "ops": case["ops"]})
     # ---- model query
     if lines is not None and ok_all:
         cid = "h%d" % len(lines)
-        lines.append("%s %s" % (cid, hist_line(case, sets_arr)))
-        pending[cid] = ("hist", case, verdicts, objs, cur)
-        if case.get("witness") and all(op[0] != "C" for op in case["ops"]):
+        lines.append("%s %s" % (cid, hist_line(case, vals)))
+        pending[cid] = ("hist", case, verdicts, objs, pcs, arrays, cur_val, held)
+        if case.get("witness") and all(op[0] == "S" for op in case["ops"]):
             # the same history through the model of the tree as found: must differ exactly where the findings are
-            lines.append("%sc %s" % (cid, hist_line(case, sets_arr, tree="coded")))
+            lines.append("%sc %s" % (cid, hist_line(case, vals, tree="coded")))
             pending[cid + "c"] = ("coded", cid, case)
 
 
-def hist_line(case, sets_arr, tree="fixed"):
-    """`hist` request with the reference fits from set 0 to every well-shaped set"""
+def hist_line(case, vals, tree="fixed"):
+    """`hist` request with the reference fits from value 0 (the source) to every well-shaped value"""
+    import numpy as np
     o = case["opts"]
-    mcls = case["mcls"]
-    S = sets_arr[0]
+    mcls, d = case["mcls"], case["d"]
+    S = vals[0]
     toks = ["hist", tree, mcls, "1" if o.get("rotation", True) else "0", "1" if o.get("allow_mirror", False) else "0",
-            str(o.get("kernel", 0)), fq(o.get("min_singular_val", 1e-4)), str(len(sets_arr))]
+            str(o.get("kernel", 0)), fq(o.get("min_singular_val", 1e-4)), str(len(vals))]
 
     def lst(a):
-        import numpy as np
         a = np.asarray(a, dtype=float).ravel()
         return "%d %s" % (len(a), " ".join(fq(x) for x in a)) if len(a) else "0"
 
-    for r, T in enumerate(sets_arr):
+    for r, T in enumerate(vals):
         toks.append("%d %d %d" % (r, T.shape[0], T.shape[1]))
         good = T.shape == S.shape
         toks.append(lst(ref_translation(S, T)) if good and mcls == "translation" else "0")
@@ -598,36 +973,45 @@ def hist_line(case, sets_arr, tree="fixed"):
         for rot in (False, True):
             for m in (False, True):
                 toks.append(lst(ref_procrustes(S, T, rot, m)) if good and mcls == "similarity" else "0")
-    mops = [op for op in case["ops"] if op[0] in ("S", "C")]
+    toks.append("%d %s" % (len(case["arrs"]), " ".join(str(v) for v in case["arrs"])))
+    toks.append("%d %s" % (len(case["pcs"]), " ".join(str(a) for a in case["pcs"])))
+    mops = [op for op in case["ops"] if op[0] in ("S", "C", "W", "E")]
     toks.append(str(len(mops)))
     for op in mops:
-        toks.append(" ".join(str(x) for x in op))
+        if op[0] == "E":
+            toks.append("E %d %s %s" % (op[1], op[2], lst(edit_matrix(mcls, d, op[2], op[3]))))
+        else:
+            toks.append(" ".join(str(x) for x in op))
     return " ".join(toks)
 
 
 def parse_hist(reply):
-    """('err', kind) | ('ok', verdicts, [obj dict])"""
+    """('err', kind) | ('ok', verdicts, [obj dict], [value id per array])"""
     if reply.startswith("err"):
         return ("err", reply.split()[1])
     if not reply.startswith("ok"):
         return ("bad", reply)
     parts = reply[2:].split(" ; ")
     verdicts = parts[0].split()
-    objs = []
+    objs, arr_ids = [], []
     for p in parts[1:]:
         t = p.split()
-        objs.append({"src": int(t[0]), "tgt": int(t[1]), "rot": t[2], "mir": t[3], "ker": t[4], "sv": t[5],
-                     "kind": t[6], "rest": t[7:]})
-    return ("ok", verdicts, objs)
+        if t and t[0] == "A":
+            arr_ids = [int(x) for x in t[1:]]
+            continue
+        objs.append({"srcPc": int(t[0]), "tgtPc": int(t[1]), "src": int(t[2]), "tgt": int(t[3]), "rot": t[4],
+                     "mir": t[5], "ker": t[6], "sv": t[7], "kind": t[8], "rest": t[9:]})
+    return ("ok", verdicts, objs, arr_ids)
 
 
-def compare_model(ctx, reply, case, verdicts, objs, cur):
+def compare_model(ctx, reply, case, verdicts, objs, pcs, arrays, cur_val, held):
     """model (Lean) against implementation on one history"""
     import numpy as np
     import re
-    sets_arr = [np.array(X, dtype=float) for X in case["sets"]]
+    vals = [np.array(X, dtype=float) for X in case["vals"]]
     probes = np.array(case["probes"], dtype=float)
     scale = case_scale(case)
+    f32 = any(case["dtypes"][v] == "float32" for v in case["arrs"])
     rp = {"case": case, "model_reply": reply[:600]}
     m = parse_hist(reply)
     if m[0] != "ok":
@@ -640,28 +1024,61 @@ def compare_model(ctx, reply, case, verdicts, objs, cur):
     if len(m[2]) != len(objs):
         ctx.mismatch("hist/objects", "model has %d objects, implementation %d" % (len(m[2]), len(objs)), rp)
         return
+    npc, narr = len(case["pcs"]), len(case["arrs"])
+    # the caller's arrays: the model's heap holds, in every array, the value the caller last put there
+    if m[3][:narr] != cur_val:
+        ctx.mismatch("hist/arrays", "model: arrays hold values %r, the caller put %r" % (m[3][:narr], cur_val), rp)
+
+    def close(a, b, sc):
+        a, b = np.asarray(a, dtype=float), np.asarray(b, dtype=float)
+        return a.shape == b.shape and bool(np.all(np.abs(a - b) <= (1e-5 if f32 else TOL) * (1.0 + sc)))
+
     for i, (mo, obj) in enumerate(zip(m[2], objs)):
-        if not np.array_equal(obj.target.points, sets_arr[mo["tgt"]]) or mo["tgt"] != cur[i]:
-            ctx.mismatch("hist/target", "object %d: model target is set %d, implementation holds set %d" % (
-                i, mo["tgt"], cur[i]), rp)
+        # which object is held as target: the model's reference against Python identity
+        if mo["tgtPc"] < npc:
+            if obj.target is not pcs[mo["tgtPc"]]:
+                ctx.mismatch("hist/target", "object %d: the model holds the caller's PointCloud %d as target, the "
+                             "implementation holds %s" % (i, mo["tgtPc"], "PointCloud %r" % [r for r, p in enumerate(pcs) if p is obj.target] or "an object of its own"), rp)
+                continue
+        elif any(obj.target is p for p in pcs):
+            ctx.mismatch("hist/target", "object %d: the model holds a PointCloud of its own as target, the "
+                         "implementation one of the caller's" % i, rp)
             continue
+        if mo["tgt"] < 1000:
+            if not np.array_equal(np.asarray(obj.target.points, dtype=float), vals[mo["tgt"]]):
+                ctx.mismatch("hist/target", "object %d: .target does not show value %d" % (i, mo["tgt"]), rp)
+                continue
+        else:
+            # an aligned source made by a parameter edit (which matrix it was aligned with is not recorded by the model:
+            # a later composition changes the matrix and leaves this target alone)
+            if obj.target.points.shape != vals[0].shape:
+                ctx.mismatch("hist/target", "object %d: the model's target is an aligned source, the implementation's "
+                             "has another shape" % i, rp)
+                continue
+        if mo["srcPc"] < npc:
+            if obj.source is not pcs[mo["srcPc"]] and not (case["mcls"] == "pwa" and case["trilist"] is None):
+                ctx.mismatch("hist/source", "object %d: the model holds the caller's source object, the implementation "
+                             "another one" % i, rp)
+        elif any(obj.source is p for p in pcs):
+            ctx.mismatch("hist/source", "object %d: the model holds a copy of the source, the implementation the "
+                         "caller's object" % i, rp)
         if mo["kind"] == "hom":
             d = case["d"]
-            vals = np.array([float(common.pq(x)) for x in mo["rest"]]).reshape(d + 1, d + 1)
-            if not arr_close(obj.h_matrix, vals, max(scale, float(np.abs(vals).max()))):
+            mvals = np.array([float(common.pq(x)) for x in mo["rest"]]).reshape(d + 1, d + 1)
+            if not close(obj.h_matrix, mvals, max(scale, float(np.abs(mvals).max()))):
                 ctx.mismatch("hist/matrix", "object %d: h_matrix differs from the model's by %.3g" % (
-                    i, float(np.abs(obj.h_matrix - vals).max())), rp)
+                    i, float(np.abs(obj.h_matrix - mvals).max())), rp)
         elif mo["kind"] == "tps":
             mm = re.match(r"L\(k(\d+),p(\d+)\) C\(L\(k(\d+),p(\d+)\),(-?\d+)/(\d+),p(\d+)\)$", " ".join(mo["rest"]))
             if not mm or mm.group(1) != mm.group(3) or mm.group(2) != "0" or mm.group(4) != "0":
                 ctx.mismatch("hist/tps", "object %d: unexpected state descriptor %r" % (i, mo["rest"]), rp)
                 continue
             k, sv, t = int(mm.group(1)), int(mm.group(5)) / float(int(mm.group(6))), int(mm.group(7))
-            want = ref_tps_apply(k, sv, sets_arr[0], sets_arr[t], probes)
+            want = ref_tps_apply(k, sv, vals[0], vals[t], probes)
             got = apply_pts(obj, probes)
-            sc = max(scale, float(np.abs(tps_kernel(k, sets_arr[0], sets_arr[0])).max()))
-            if not arr_close(got, want, sc):
-                ctx.mismatch("hist/tps", "object %d: map differs from the reference TPS (kernel %d, floor %g, target set "
+            sc = max(scale, float(np.abs(tps_kernel(k, vals[0], vals[0])).max()))
+            if not close(got, want, sc):
+                ctx.mismatch("hist/tps", "object %d: map differs from the reference TPS (kernel %d, floor %g, target value "
                              "%d) by %.3g" % (i, k, sv, t, float(np.abs(got - want).max())), rp)
         elif mo["kind"] == "pwa":
             mm = re.match(r"V\(p(\d+),p(\d+)\)$", " ".join(mo["rest"]))
@@ -669,11 +1086,11 @@ def compare_model(ctx, reply, case, verdicts, objs, cur):
                 ctx.mismatch("hist/pwa", "object %d: unexpected state descriptor %r" % (i, mo["rest"]), rp)
                 continue
             t = int(mm.group(2))
-            tl = np.array(case["trilist"]) if case["trilist"] is not None else delaunay(sets_arr[0])
-            want = np.array([sum(w[j] * sets_arr[t][tl[ti][j]] for j in range(3)) for ti, w in case["pinfo"]])
+            tl = np.array(case["trilist"]) if case["trilist"] is not None else delaunay(vals[0])
+            want = np.array([sum(w[j] * vals[t][tl[ti][j]] for j in range(3)) for ti, w in case["pinfo"]])
             got = apply_pts(obj, probes)
-            if not arr_close(got, want, scale):
-                ctx.mismatch("hist/pwa", "object %d: map differs from the barycentric reference to set %d by %.3g" % (
+            if not close(got, want, scale):
+                ctx.mismatch("hist/pwa", "object %d: map differs from the barycentric reference to value %d by %.3g" % (
                     i, t, float(np.abs(got - want).max())), rp)
 
 
@@ -687,6 +1104,7 @@ def witness_cases():
     P4 = [[0.0, 0.0, 1.0], [3.0, 1.0, 0.0], [1.0, 4.0, 2.0], [2.0, 2.0, 5.0]]
     sets = [S, S, T1, P3, P4, T5]
     probes = [[0.5, 0.25], [2.0, -1.0], [-3.0, 0.5], [1.0, 1.0], [0.0, 0.0]]
+    shift = [3.0, 3.0]
     out = []
     for mcls, icls, opts, ops in [
         ("similarity", "AlignmentSimilarity", {"rotation": False, "allow_mirror": False}, [["S", 0, 2]]),
@@ -695,13 +1113,21 @@ def witness_cases():
         ("translation", "AlignmentTranslation", {}, [["S", 0, 2], ["S", 0, 3], ["S", 0, 4], ["S", 0, 5], ["S", 0, 3]]),
         ("translation", "AlignmentTranslation", {}, [["C", 0], ["S", 0, 5], ["S", 1, 2], ["S", 1, 3]]),
         ("uniformScale", "AlignmentUniformScale", {}, [["S", 0, 5], ["S", 0, 2]]),
+        # the Lean examples of the aliasing theorems: the caller overwrites the held target and passes it again
+        ("translation", "AlignmentTranslation", {}, [["W", 1, 5], ["S", 0, 1]]),
+        ("translation", "AlignmentTranslation", {}, [["C", 0], ["W", 6, 5], ["S", 1, 6]]),
+        ("tps", "ThinPlateSplines", {"kernel": 0, "min_singular_val": 1e-4}, [["C", 0], ["W", 6, 5], ["S", 0, 1]]),
+        # ... and of the parameter-edit theorems
+        ("translation", "AlignmentTranslation", {}, [["E", 0, "F", shift], ["E", 0, "A", shift], ["W", 2, 5], ["S", 0, 5]]),
+        ("rotation", "AlignmentRotation", {"allow_mirror": False},
+         [["C", 0], ["E", 0, "F", [0.0, -1.0, 1.0, 0.0]], ["S", 1, 2]]),
     ]:
-        out.append({"kind": "hist", "mcls": mcls, "icls": icls, "d": 2, "opts": opts, "sets": sets, "trilist": None,
-                    "ops": ops, "probes": probes, "pinfo": None, "witness": "history"})
+        c = simple_case(mcls, icls, 2, opts, sets, ops, probes, witness="history")
+        c["pcs"] = c["pcs"] + [1]            # PointCloud 6 shares the array of PointCloud 1
+        out.append(c)
     for mcls, icls, opts in [("affine", "AlignmentAffine", {}), ("rotation", "AlignmentRotation", {"allow_mirror": False})]:
         # finding 22: the freshly constructed object itself (no call at all), first target not an exact fit
-        out.append({"kind": "hist", "mcls": mcls, "icls": icls, "d": 2, "opts": opts, "sets": [S, T5, T1, P3, P4],
-                    "trilist": None, "ops": [], "probes": probes, "pinfo": None, "witness": "fresh"})
+        out.append(simple_case(mcls, icls, 2, opts, [S, T5, T1, P3, P4], [], probes, witness="fresh"))
     return out
 
 
@@ -710,7 +1136,7 @@ def witness_table(ctx):
     import numpy as np
     import menpo.transform as mt
     from menpo.shape import PointCloud
-    w = witness_cases()[0]["sets"]
+    w = witness_cases()[0]["vals"]
     S, T1, T5 = (np.array(w[i]) for i in (0, 2, 5))
     pc = PointCloud
     checks = [
@@ -749,17 +1175,20 @@ def gen_gpa(rng):
         P = base.dot(M.T) + np.array([dy(rng, -6, 6) for _ in range(d)])
         P = P + np.array([[rng.randint(-4, 4) * amp for _ in range(d)] for _ in range(n)])
         shapes.append((np.round(P * 1024) / 1024).tolist())
+    # max_iterations is fixed at 100 inside the constructor; a subclass pins it to a small value so that the
+    # iteration-bound exit is driven on the real code (the loop itself is the library's)
     return {"kind": "gpa", "d": d, "shapes": shapes, "allow_mirror": rng.random() < 0.4,
-            "fixed_target": rng.random() < 0.2}
+            "fixed_target": rng.random() < 0.2, "max_iter": rng.choice([None, None, 1, 2, 3])}
 
 
-def ref_gpa(shapes, mirror, target0=None):
-    """independent re-implementation of the iteration with fresh fits only: (targets T_0.., flags, near_tie)"""
+def ref_gpa(shapes, mirror, target0=None, max_iter=100):
+    """independent re-implementation of the iteration with fresh fits only (Lean: `refGpa`, theorem
+    `gpa_eq_fresh_iteration`): (targets T_0.., flags, near_tie)"""
     import numpy as np
     T = np.mean(shapes, axis=0) if target0 is None else target0
     size0 = np.sqrt(((T - T.mean(0)) ** 2).sum())
     targets, flags, near = [T], [], False
-    for _ in range(100):
+    for _ in range(max_iter):
         al = [apply_h(ref_procrustes(S, T, True, mirror), S) for S in shapes]
         new = np.mean(al, axis=0)
         c = new.mean(0)
@@ -775,33 +1204,45 @@ def ref_gpa(shapes, mirror, target0=None):
     return targets, flags, near
 
 
+def gpa_class(max_iter):
+    from menpo.transform import GeneralizedProcrustesAnalysis
+    if max_iter is None:
+        return GeneralizedProcrustesAnalysis
+
+    class BoundedGPA(GeneralizedProcrustesAnalysis):
+        max_iterations = property(lambda self: max_iter, lambda self, v: None)
+    return BoundedGPA
+
+
 def run_gpa(ctx, case, lines=None, pending=None, count=True):
     import numpy as np
     from menpo.shape import PointCloud
-    from menpo.transform import GeneralizedProcrustesAnalysis, AlignmentSimilarity
+    from menpo.transform import AlignmentSimilarity
     site = "C08/gpa"
     shapes = [np.array(X, dtype=float) for X in case["shapes"]]
     mirror = case["allow_mirror"]
     fixed_t = case.get("fixed_target", False)
+    max_iter = case.get("max_iter")
     for i, S in enumerate(shapes):
         for T in shapes[:1] + [np.mean(shapes, axis=0)]:
             if not rot_conditioned(S, T):
                 return False
     t0 = shapes[0] * 1.25 + 0.5 if fixed_t else None
-    targets, flags, near = ref_gpa(shapes, mirror, t0)
+    targets, flags, near = ref_gpa(shapes, mirror, t0, 100 if max_iter is None else max_iter)
     if near:
         return False
     for T in targets:
         if any(not rot_conditioned(S, T) for S in shapes):
             return False
     rp = {"case": case, "how": "g = GeneralizedProcrustesAnalysis([PointCloud(s) for s in shapes], target=%s, "
-                               "allow_mirror=...); compare g.transforms[i] with AlignmentSimilarity(PointCloud(shapes[i]), "
+                               "allow_mirror=...) (max_iter: a subclass whose max_iterations property is pinned to that "
+                               "value); compare g.transforms[i] with AlignmentSimilarity(PointCloud(shapes[i]), "
                                "g.target, allow_mirror=...)" % ("shapes[0]*1.25+0.5" if fixed_t else "None")}
     pcs = [PointCloud(S.copy()) for S in shapes]
     dig = [p.points.tobytes() for p in pcs]
     scale = max(1.0, float(np.abs(np.array(shapes)).max()))
     try:
-        g = GeneralizedProcrustesAnalysis(pcs, target=PointCloud(t0.copy()) if fixed_t else None, allow_mirror=mirror)
+        g = gpa_class(max_iter)(pcs, target=PointCloud(t0.copy()) if fixed_t else None, allow_mirror=mirror)
     except Exception as e:
         ctx.fail(site, "raises", "GPA raised %s: %s" % (type(e).__name__, str(e)[:100]), rp)
         return True
@@ -810,8 +1251,10 @@ def run_gpa(ctx, case, lines=None, pending=None, count=True):
         if len(g.transforms) != len(shapes):
             ctx.fail(site, "count", "%d transforms for %d shapes" % (len(g.transforms), len(shapes)), rp)
             ok = False
+        fresh = []
         for i, (t, S) in enumerate(zip(g.transforms, shapes)):
             f = AlignmentSimilarity(PointCloud(S.copy()), PointCloud(g.target.points.copy()), allow_mirror=mirror)
+            fresh.append(f)
             if not arr_close(t.h_matrix, f.h_matrix, scale):
                 ctx.fail(site, "transform-not-alignment-to-reported-target", "transforms[%d] differs from the fresh "
                          "AlignmentSimilarity of shape %d to gpa.target by %.3g" % (i, i, float(np.abs(t.h_matrix - f.h_matrix).max())), rp)
@@ -825,6 +1268,20 @@ def run_gpa(ctx, case, lines=None, pending=None, count=True):
             if not arr_close(t.aligned_source().points, f.aligned_source().points, scale):
                 ctx.fail(site, "aligned-source-differs", "transforms[%d].aligned_source() differs from the fresh one" % i, rp)
                 ok = False
+        if ok:
+            # derived reports (theorems gpa_mean_aligned_shape, gpa_alignment_errors): functions of (sources, target)
+            try:
+                mas = g.mean_aligned_shape().points
+                err = g.mean_alignment_error()
+                want_err = sum(f.alignment_error() for f in fresh) / len(fresh)
+                if not arr_close(mas, g.target.points, scale):
+                    ctx.mismatch("gpa/mean-aligned-shape", "mean_aligned_shape() is not the mean of the transforms' "
+                                 "targets (= the reported target)", rp)
+                if not common.close(err, want_err, scale, TOL):
+                    ctx.mismatch("gpa/mean-alignment-error", "mean_alignment_error() = %r, the fresh alignments to the "
+                                 "reported target give %r" % (err, want_err), rp)
+            except Exception as e:
+                ctx.mismatch("gpa/reports", "mean_aligned_shape / mean_alignment_error raised %s" % type(e).__name__, rp)
     for j, p in enumerate(pcs):
         if p.points.tobytes() != dig[j]:
             ctx.fail(site, "caller-pointset-altered", "input shape %d was modified by GPA" % j, rp)
@@ -832,14 +1289,15 @@ def run_gpa(ctx, case, lines=None, pending=None, count=True):
     if count:
         ctx.count("gpa:%s" % ("fixed-target" if fixed_t else "free"))
         ctx.count("gpa:iterations=%d" % min(g.n_iterations, 9))
-        ctx.case(("gpa", case["shapes"], mirror, fixed_t), nontrivial=g.n_iterations >= 2,
+        ctx.count("gpa:exit=%s" % ("converged" if g.converged else "max_iterations"))
+        ctx.case(("gpa", case["shapes"], mirror, fixed_t, max_iter), nontrivial=g.n_iterations >= 2,
                  sample={"gpa_shapes": len(shapes), "d": case["d"], "n": len(case["shapes"][0]),
-                         "allow_mirror": mirror, "iterations": g.n_iterations})
+                         "allow_mirror": mirror, "iterations": g.n_iterations, "max_iter": max_iter})
     if lines is not None and ok:
         cid = "g%d" % len(lines)
-        lines.append("%s gpa fixed 100 %d %d %d %d %d %d %s" % (
-            cid, len(shapes), shapes[0].shape[0], shapes[0].shape[1], int(mirror), int(fixed_t), len(flags),
-            " ".join("1" if f else "0" for f in flags)))
+        lines.append("%s gpa fixed %d %d %d %d %d %d %d %s" % (
+            cid, 100 if max_iter is None else max_iter, len(shapes), shapes[0].shape[0], shapes[0].shape[1],
+            int(mirror), int(fixed_t), len(flags), " ".join("1" if f else "0" for f in flags)))
         pending[cid] = ("gpa", case, g, targets, shapes)
     return True
 
@@ -851,16 +1309,24 @@ def compare_gpa(ctx, reply, case, g, targets, shapes):
         ctx.mismatch("gpa", "model says %r" % reply[:80], rp)
         return
     parts = reply[2:].split(" ; ")
-    n_it, conv, tgt = (int(x) for x in parts[0].split())
+    head = parts[0].split()
+    n_it, conv, tgt = int(head[0]), int(head[1]), int(head[2])
     scale = max(1.0, float(np.abs(np.array(shapes)).max()))
     if n_it != g.n_iterations or bool(conv) != bool(g.converged):
         ctx.mismatch("gpa/iterations", "model: %d iterations converged=%d; implementation: %d, %s" % (
             n_it, conv, g.n_iterations, g.converged), rp)
         return
+    max_iter = case.get("max_iter")
+    if not g.converged and g.n_iterations != (100 if max_iter is None else max_iter) + 1:
+        ctx.mismatch("gpa/iterations", "not converged after %d iterations with max_iterations = %r" % (
+            g.n_iterations, max_iter), rp)
     if case.get("fixed_target"):
         want_t = shapes[0] * 1.25 + 0.5
     else:
         want_t = targets[tgt - 1000]
+        # theorem gpa_eq_fresh_iteration, executed: the model's run equals its own fresh-alignments-only iteration
+        if head[3:6] != [str(tgt), str(n_it), str(conv)]:
+            ctx.mismatch("gpa/ref", "model: gpa reports %r, the fresh-alignment iteration %r" % (head[:3], head[3:6]), rp)
     if not arr_close(g.target.points, want_t, scale):
         ctx.mismatch("gpa/target", "gpa.target differs from reference target %d" % (tgt - 1000), rp)
         return
@@ -874,6 +1340,123 @@ def compare_gpa(ctx, reply, case, g, targets, shapes):
                                                                   float(np.abs(t.h_matrix - want).max())), rp)
         if not arr_close(t.target.points, targets[int(tok[1]) - 1000], scale):
             ctx.mismatch("gpa/transform-target", "transforms[%d].target is not reference target %d" % (i, int(tok[1]) - 1000), rp)
+
+
+# ------------------------------------------------------------------------------- regenerated read / write table
+
+def trace_rw(obj, action):
+    """(reads, writes, in_place): instance attributes read before `action()` (re)binds them; attributes whose identity
+    or content changes; changed attributes that keep their identity (modified in place)"""
+    cls = type(obj)
+    reads, bound = [], set()
+
+    class Traced(cls):
+        def __getattribute__(self, name):
+            d = object.__getattribute__(self, "__dict__")
+            if name in d and name not in bound and name not in reads:
+                reads.append(name)
+            return cls.__getattribute__(self, name)
+
+        def __setattr__(self, name, value):
+            bound.add(name)
+            cls.__setattr__(self, name, value)
+
+    before = {k: (id(v), common.deep_digest(v)) for k, v in vars(obj).items()}
+    keep = dict(vars(obj))         # keeps the old values alive: ids are not reused during the measurement
+    obj.__class__ = Traced
+    try:
+        action()
+    finally:
+        obj.__class__ = cls
+    after = {k: (id(v), common.deep_digest(v)) for k, v in vars(obj).items()}
+    del keep
+    writes = sorted(k for k in set(before) | set(after) if before.get(k) != after.get(k))
+    in_place = sorted(k for k in writes if k in before and k in after and before[k][0] == after[k][0])
+    return sorted(reads), writes, in_place
+
+
+def rw_table():
+    """rows (impl class, model class, options label, reads, writes, in place, all attributes) measured on live objects
+    of every alignment class and option combination: two set_target calls each"""
+    import numpy as np
+    from menpo.shape import PointCloud
+    rng = common.random.Random(20240)
+    rows = {}
+    for fam in families():
+        mcls, icls, d, opts = fam
+        case = None
+        while case is None:
+            case = gen_case(rng, fam, n_ops=1)
+        vals = [np.array(X, dtype=float) for X in case["vals"]]
+        obj = make_obj(case, make_source(case, vals[0].copy()), PointCloud(vals[1].copy()))
+        reads, writes, inpl = set(), set(), set()
+        for v in (2, 3, 2):
+            t = PointCloud(vals[v].copy())
+            old, src = obj.target, obj.source
+            b_old, b_src = old.points.tobytes(), src.points.tobytes()
+            r, w, ip = trace_rw(obj, lambda: obj.set_target(t))
+            reads.update(r)
+            writes.update(w)
+            inpl.update(ip)
+            # the point sets involved must come out byte-identical (names the model does not know break the obligation)
+            if t.points.tobytes() != vals[v].tobytes():
+                writes.add("(coordinates of the argument)")
+            if old.points.tobytes() != b_old:
+                writes.add("(coordinates of the previous target)")
+            if src.points.tobytes() != b_src or obj.source is not src:
+                writes.add("(coordinates of the source)")
+        label = " ".join("%s=%s" % kv for kv in sorted(opts.items())) + (" d=%d" % d)
+        rows[(icls, label)] = (icls, mcls, label.strip(), sorted(reads), sorted(writes), sorted(inpl), sorted(vars(obj)))
+    return [rows[k] for k in sorted(rows)]
+
+
+DISPATCH_METHODS = ["set_target", "_verify_target", "_sync_target_from_state", "_target_setter", "_new_target_from_state",
+                    "_sync_state_from_target", "copy", "pseudoinverse", "_set_h_matrix", "_from_vector_inplace",
+                    "set_rotation_matrix", "_compose_before_inplace", "_compose_after_inplace"]
+
+
+def dispatch_table():
+    """(impl class, model class, [(method, class whose __dict__ supplies it)]) from the live MROs"""
+    import menpo.transform as mt
+    from menpo.transform.piecewiseaffine.base import PythonPWA
+    seen, rows = set(), []
+    for mcls, icls, d, opts in families():
+        cls = PythonPWA if icls == "PythonPWA" else getattr(mt, icls)
+        if cls.__name__ in seen:
+            continue
+        seen.add(cls.__name__)
+        rows.append((cls.__name__, mcls, [(m, next((k.__name__ for k in cls.__mro__ if m in vars(k)), "-"))
+                                          for m in DISPATCH_METHODS]))
+    return sorted(rows)
+
+
+def generated(ctx):
+    rows = rw_table()
+    disp = dispatch_table()
+
+    def sl(xs):
+        return "[" + ", ".join('"%s"' % x for x in xs) + "]"
+
+    body = ",\n   ".join('⟨"%s", .%s, "%s", %s, %s, %s, %s⟩' % (i, m, lab, sl(r), sl(w), sl(ip), sl(at))
+                         for i, m, lab, r, w, ip, at in rows)
+    gen = ("/- REGENERATED by harness/c08.py from live objects of every alignment class and option combination on every\n"
+           "   run: instance attributes read by set_target before it (re)binds them, attributes changed, attributes changed\n"
+           "   in place, all instance attributes.  Do not edit. -/\n"
+           "import MenpoModel.Core.C08Frame\n\nnamespace MenpoModel.Generated.C08\nopen MenpoModel.C08\n\n"
+           "def rwTable : List RWRow :=\n  [%s]\n\n"
+           "/-- which class supplies which method, from the live MROs -/\n"
+           "def dispatchTable : List Dispatch :=\n  [%s]\n\nend MenpoModel.Generated.C08\n" % (
+               body, ",\n   ".join('⟨"%s", .%s, [%s]⟩' % (i, m, ", ".join('("%s", "%s")' % p for p in sup))
+                                   for i, m, sup in disp)))
+    ctx.notes["method_resolution"] = {i: dict(sup) for i, m, sup in disp}
+    ctx.notes["set_target_read_write_table"] = {"%s %s" % (i, lab): {"reads": r, "writes": w, "in_place": ip}
+                                                for i, m, lab, r, w, ip, at in rows}
+    ok = common.build_generated(ctx, {"MenpoModel/Generated/C08RW.lean": gen},
+                                ["MenpoModel.Generated.C08RW", "MenpoModel.GenProps.C08"], 5)
+    if not ok and ctx.broken_obligations:
+        ctx.broken_obligations[-1]["obligation"] = "MenpoModel.GenProps.C08.rwTable_ok / rwTable_covers / rwTable_options / dispatch_ok / dispatch_covers"
+        ctx.broken_obligations[-1]["observed"] = ctx.notes["set_target_read_write_table"]
+    return ok
 
 
 # ------------------------------------------------------------------------------- shrinking
@@ -899,7 +1482,7 @@ class _Probe(object):
 def _valid_ops(ops):
     n = 1
     for op in ops:
-        if op[1] >= n:
+        if op[0] != "W" and op[1] >= n:
             return False
         if op[0] == "C":
             n += 1
@@ -975,11 +1558,18 @@ def settle(ctx, lines, pending):
         return
     model = common.run_driver(PROP, lines)
     differs = []
+
+    def observable(reply):
+        """verdicts + value-level fields of the objects (not the heap references, which the value model lacks)"""
+        m = parse_hist(reply)
+        return (m[1], [(o["src"], o["tgt"], o["rot"], o["mir"], o["ker"], o["sv"], o["kind"], o["rest"]) for o in m[2]]) \
+            if m[0] == "ok" else m
+
     for cid, item in pending.items():
         if item[0] == "hist":
             compare_model(ctx, model[cid], *item[1:])
         elif item[0] == "coded":
-            if model[cid] != model[item[1]]:
+            if observable(model[cid]) != observable(model[item[1]]):
                 differs.append("%s/%s" % (item[2]["icls"], item[2]["witness"]))
         else:
             compare_gpa(ctx, model[cid], *item[1:])
@@ -1015,9 +1605,17 @@ def search(ctx):
 
 
 def run(ctx):
-    common.prepare_lean(ctx, PROP, IMPORTS, THEOREMS)
+    generated(ctx)
+    if ctx.broken_obligations:
+        # what set_target reads / writes on the live classes is no longer what the model's re-fit reads / writes:
+        # audit what still builds, then let the oracle search for a history on which the difference shows
+        common.prepare_lean(ctx, PROP, IMPORTS[:1], [t for t in THEOREMS if ".GenProps." not in t])
+    else:
+        common.prepare_lean(ctx, PROP, IMPORTS, THEOREMS, targets=TARGETS)
+    # the regenerated obligations are counted once (as generated obligations), their axioms are reported apart
+    ctx.notes["generated_obligation_axioms"] = {t: ctx.theorems.pop(t) for t in list(ctx.theorems) if ".GenProps." in t}
     lines, pending = [], {}
-    explore(ctx, ctx.n(1500, 20000), ctx.n(100, 1500), lines, pending)
+    explore(ctx, ctx.n(3000, 30000), ctx.n(150, 2000), lines, pending)
     settle(ctx, lines, pending)
     return ctx.finish(search)
 
@@ -1035,8 +1633,8 @@ def replay(ctx, path):
     if case is None:
         print("no recorded case in %s; re-running the quick exploration with seed %r" % (path, data.get("seed")))
         return run(common.Ctx(PROP, "quick", int(data.get("seed", 0))))
-    print("replaying %s case: %s" % (case["kind"], json.dumps({k: v for k, v in case.items() if k not in ("sets", "shapes", "probes", "pinfo")})))
-    common.prepare_lean(ctx, PROP, IMPORTS, THEOREMS)
+    print("replaying %s case: %s" % (case["kind"], json.dumps({k: v for k, v in case.items() if k not in ("sets", "vals", "shapes", "probes", "pinfo")})))
+    common.prepare_lean(ctx, PROP, IMPORTS[:1], [t for t in THEOREMS if ".GenProps." not in t])
     lines, pending = [], {}
     if case["kind"] == "hist":
         run_case(ctx, case, lines, pending)
